@@ -46,7 +46,40 @@ def run(ck, prog, ctx):
             c = t.callee
             if c.res and c.res.startswith(IC + "::") and c.res.rsplit("::", 1)[-1] in SETTERS:
                 sites.append((b, bi, t, c.res.rsplit("::", 1)[-1]))
-    ck.floor("ROLE", "production call sites of InformationContent::set_K", len(sites), 5)
+    # ... and the places that hand a setter on as a VALUE to a shared helper (`self.ic_of_kind(self.genes.len(), |t| t.genes().len(), InformationContent::set_gene)`)
+    from engines import fn_item_args
+    vsites = fn_item_args(prog, lambda v: v.startswith(IC + "::") and v.rsplit("::", 1)[-1] in SETTERS)
+    ck.floor("ROLE", "production call sites of InformationContent::set_K", len(sites) + len(vsites), 5)
+    vcnt = {}
+    pv_crisp = Prov(prog, inline=False, mutflow=False)
+    for b, bi, t, ai_, v in sorted(vsites, key=lambda x: (x[0].id, x[1])):
+        setter = v.rsplit("::", 1)[-1]
+        K = SETTERS[setter]
+        base = "%s/%s/value" % (b.short, setter)
+        i = vcnt.get(base, 0)
+        vcnt[base] = i + 1
+        roles = []
+        foreign = []
+        for j, a in enumerate(t.args):
+            if j == ai_:
+                continue
+            cid = pv.closure_of_operand(b, a)
+            if cid and cid in prog.bodies:
+                for fb in prog.family(prog.bodies[cid]):
+                    for e in kind_elements(fb):
+                        (roles if e[0] == K else foreign).append(("closure", e[0], e[1]))
+                continue
+            for r in len_roles(pv_crisp.of_operand(b, a)):
+                if r[1] and r[1] != {K}:
+                    foreign.append((r[0], "/".join(sorted(r[1])), r[2]))
+                elif r[1]:
+                    roles.append((r[0], K, r[2]))
+        ck.ob("KIND", "%s/%d" % (base, i), not foreign, "%s hands %s to %s together with %s" % (b.short, setter, (t.callee.res or t.callee.name or "?").rsplit("::", 1)[-1], "counts of kind %s only" % K if not foreign else "a count of ANOTHER kind: %s" % (foreign[0][2],)), where=b.where(t.line))
+        rec = [r for r in roles if r[0] == "records"]
+        if rec:
+            ck.ob("ROLE", "%s/%d/total" % (base, i), True, "%s: the call that hands on %s passes the number of %s records (%s)" % (b.short, setter, K, rec[0][2]), where=b.where(t.line))
+        else:
+            ck.undecided("ROLE", "%s/%d/total" % (base, i), "%s hands %s on as a value: which count becomes `total` is decided inside the helper, which this rule does not follow" % (b.short, setter), where=b.where(t.line))
     cnt = {}
     for b, bi, t, setter in sorted(sites, key=lambda x: (x[0].id, x[1])):
         K = SETTERS[setter]
@@ -107,7 +140,10 @@ def run(ck, prog, ctx):
             check_required_steps(ck, "KIND", prog, rb, [("set_%s for every term" % "/".join(sorted(by_body[bid])), lambda t: (t.callee.res or "").startswith(IC + "::set_"))])
     cic0 = prog.one(r"^ontology::builder::Builder::<ontology::builder::ConnectedTerms>::calculate_information_content$")
     if cic0 is not None:
-        check_required_steps(ck, "KIND", prog, cic0, [(k, (lambda kk: (lambda t: (t.callee.res or "").endswith("::calculate_%s_ic" % kk)))(k)) for k in ("gene", "omim_disease", "orpha_disease")])
+        vby = {}
+        for b_, bi_, t_, ai_, v_ in vsites:
+            vby.setdefault(v_.rsplit("::", 1)[-1], []).append(t_)
+        check_required_steps(ck, "KIND", prog, cic0, [(k, (lambda kk: (lambda t: (t.callee.res or "").endswith("::calculate_%s_ic" % kk) or any(t is x for x in vby.get("set_" + kk, []))))(k)) for k in ("gene", "omim_disease", "orpha_disease")])
 
     # ---- inside the setters
     calc = prog.body(IC + "::calculate")
@@ -118,6 +154,18 @@ def run(ck, prog, ctx):
         writes = [s for _, s in sb.stmts() if s.k == "assign" and any(e != "*" and e[0] == "f" and e[2] == IC for e in s.place.fields())]
         fields = sorted({e[1] for s in writes for e in s.place.fields() if e != "*" and e[0] == "f" and e[2] == IC})
         kinds = {KIND_FIELDS.get(f) for f in fields}
+        if not writes:
+            # the write sits in a shared private helper selected by an InformationContentKind constant: `self.set_kind(InformationContentKind::Gene, ..)`
+            sel = sorted({st.rv.get("variant") for _, st in sb.stmts() if st.k == "assign" and st.rv and st.rv["k"] == "agg" and (st.rv.get("adt") or "").endswith("InformationContentKind")} |
+                         {a.const.get("variant") for _, t_ in sb.calls() for a in t_.args if a.kind == "const" and (a.const.get("adt") or a.const.get("ty") or "").endswith("InformationContentKind") and a.const.get("variant")})
+            helpers = [t_ for _, t_ in sb.calls() if (t_.callee.res or "") in prog.bodies and not (prog.bodies[t_.callee.res].exported or prog.bodies[t_.callee.res].reachable)]
+            if helpers and sel:
+                ck.ob("KIND", "setter/%s/field" % setter, sel == [K], "%s delegates the write to %s, selecting the kind %s (expected %s)" % (setter, prog.bodies[helpers[0].callee.res].short, "/".join(sel), K), where=sb.where())
+            elif helpers:
+                ck.undecided("KIND", "setter/%s/field" % setter, "%s writes through the private helper %s: the field it selects is not recognised" % (setter, prog.bodies[helpers[0].callee.res].short), where=sb.where())
+            else:
+                ck.ob("KIND", "setter/%s/field" % setter, False, "%s writes no field of InformationContent" % setter, where=sb.where())
+            continue
         ck.ob("KIND", "setter/%s/field" % setter, kinds == {K}, "%s writes field(s) %s (expected the %s field only)" % (setter, fields, K), where=sb.where())
         for s in writes:
             at = pv.of_operand(sb, s.rv["op"]) if s.rv["k"] == "use" else frozenset()
